@@ -502,6 +502,7 @@ func (this *Dataset) searchPartitionsOnNode(ctx context.Context, nodeId uint64, 
 		id, err := uuid.FromBytes(item.GetId())
 		if err != nil {
 			errorCh <- err
+			return
 		}
 
 		result = append(result, index.SearchResultItem{
